@@ -22,3 +22,6 @@ pub fn bad_index(a: [u8; 4], i: usize) -> u8 { a[i] }
 pub fn ok_index(a: [u8; 4], i: usize) -> u8 { if i < 4 { a[i] } else { 0 } }
 pub fn ok_shift(x: u32) -> u32 { x << 4 }
 pub fn bad_shift(x: u32, s: u32) -> u32 { x << s }
+pub fn ok_contains_neg(i: isize) -> u8 { if (-255..=0).contains(&i) { (-i) as u8 } else { 0 } }
+pub fn bad_contains_neg(i: isize) -> isize { if (isize::MIN..=0).contains(&i) { -i } else { 0 } }
+pub fn ok_contains_excl(i: u8) -> u8 { if (0..255).contains(&i) { i + 1 } else { 0 } }
